@@ -1019,7 +1019,14 @@ type loopModSet struct {
 	bases      map[string][]ast.Expr // heap name -> expressions whose base is written
 	globals    bool
 	mapObjs    []mapWrite
+	fieldObjs  []fieldWrite
 	allocHeaps map[string]string // heaps that receive freshly allocated objects in the body: name -> sort
+}
+
+type fieldWrite struct {
+	heap string
+	obj  ast.Expr
+	ft   types.Type
 }
 
 type mapWrite struct {
@@ -1129,6 +1136,9 @@ func (v *Verifier) markWrite(ms *loopModSet, e ast.Expr) {
 				if k == len(sel.Index())-1 {
 					if at, isArr := f.Type().Underlying().(*types.Array); isArr {
 						ms.heapKind[v.sliceHeapNameT(at.Elem())] = true
+					} else if len(sel.Index()) == 1 {
+						// field of the object a (possibly loop-invariant) pointer expression denotes
+						ms.fieldObjs = append(ms.fieldObjs, fieldWrite{v.heapName("F", structTypeName(cur), f.Name()), x.X, f.Type()})
 					} else {
 						ms.heapKind[v.heapName("F", structTypeName(cur), f.Name())] = true
 					}
@@ -1213,6 +1223,21 @@ func (v *Verifier) havocLoop(h *State, before *State, ms *loopModSet, lp *loopPa
 				h.heaps[name] = v.fresh(name, h.heaps[name].Sort)
 			}
 		}
+	}
+	for _, fw := range ms.fieldObjs {
+		if ms.heapKind[fw.heap] {
+			continue
+		}
+		ref, ok := v.stableValue(before, fw.obj, ms)
+		cur, okh := h.heaps[fw.heap]
+		if !ok || !okh {
+			ms.heapKind[fw.heap] = true
+			continue
+		}
+		_, vs, _ := arrSorts(cur.Sort)
+		nv := v.fresh("fld", vs)
+		h.assume(v.typeFacts(h, nv, fw.ft))
+		h.heaps[fw.heap] = Store(cur, ref, nv)
 	}
 	for _, mw := range ms.mapObjs {
 		hn, vn := "Mh_"+mw.tag, "Mv_"+mw.tag
